@@ -13,7 +13,7 @@ from zope.interface.interface import InterfaceClass
 from zope.interface.adapter import AdapterRegistry, VerifyingAdapterRegistry
 
 from .regmodel import registry_digest, lookup_winners
-from .c07 import V
+from .c07 import V, FalsyV
 from .common import wmod, newworld
 
 FLAVOURS = {'adapter': AdapterRegistry, 'verifying': VerifyingAdapterRegistry}
@@ -32,7 +32,7 @@ def build(flavour):
     W[None] = None
     W['a'] = V('a', 1)
     W['a2'] = V('a', 2)
-    W['b'] = V('b', 3)
+    W['b'] = FalsyV('b', 3)
     W['reg'] = FLAVOURS[flavour]()
     return W
 
@@ -49,7 +49,7 @@ def all_ops(cfg):
         for v in ('a', 'a2', 'b'):
             ops.append(('reg', k, v))
         ops.append(('reg', k, None))
-        for v in ('a', 'a2', None):
+        for v in ('a', 'a2', 'b', None):
             ops.append(('unreg', k, v))
         if k[2] == '':
             for v in ('a', 'a2', 'b'):
